@@ -33,6 +33,51 @@ def tags_in_order(soup):
     return out
 
 
+STRAY = ["R&#D", "&#x;", "&# ", "&#", "AT&#T;", "&#xz", "&#12ab;", "a&b", "&;", "&#;", "&", "&#x", "\n", "<p>", "</p>", "<b k=v>", "<br>", "<i>",
+         "x", " ", "<!--c-->", "<a href='&#'>", "&#65", "&amp", "<td>"]
+
+
+def malformed_positions(ctx):
+    """Arbitrary text (token soup incl. stray `&#`, which the tokenizer handles in its own ways): no writer knows the offsets here, but the
+    property can be read off the text itself - every tag's (sourceline, sourcepos) is a place where `<` + its name stands - and off the
+    standard library's own bookkeeping: a plain HTMLParser (no bs4) fed the same text reports the same positions, in the same order."""
+    import warnings
+    from bs4 import BeautifulSoup
+    for i in range(ctx.n(2500, 40000)):
+        r = ctx.rng("malformed-pos", i)
+        if r.random() < 0.5:
+            text = "".join(r.choice(STRAY) for _ in range(r.randint(2, 14)))
+        else:
+            text = c04.gen_soup(r) + r.choice(STRAY) + r.choice(["<p>", "<b>x</b>", "<i k=1>"])
+        try:
+            with warnings.catch_warnings():
+                warnings.simplefilter("ignore")
+                soup = BeautifulSoup(text, "html.parser", multi_valued_attributes=None)
+        except Exception:
+            ctx.count("malformed:rejected")
+            continue
+        tags = tags_in_order(soup)
+        lines_ = text.split("\n")
+        ctx.case(("M", text) if len(tags) >= 2 and "&#" in text else None)
+        ctx.count("malformed:documents")
+        bad = None
+        for t in tags:
+            ln, col = t.sourceline, t.sourcepos
+            here = lines_[ln - 1][col:col + 1 + len(t.name)] if ln is not None and 1 <= ln <= len(lines_) else None
+            if here is None or here[:1] != "<" or here[1:].lower() != t.name.lower():
+                bad = f"<{t.name}> reports line {ln} column {col}, where the text has {here!r}"
+                break
+        if bad is None:
+            evs = c04.record(text)
+            if evs is not None:
+                want = [(int(e.split("|")[2]), int(e.split("|")[3])) for e in evs if e[:3] in ("ST|", "SE|")]
+                got = sorted((t.sourceline, t.sourcepos) for t in tags)
+                if sorted(want) != got:
+                    bad = f"tags at {got[:8]}, the standard library's parser reports start tags at {sorted(want)[:8]}"
+        if bad:
+            ctx.violation("malformed text: " + bad, case={"text": text, "store": True}, observed=bad, stream="malformed-positions")
+
+
 def linecol(text, off):
     return (text.count("\n", 0, off) + 1, off - (text.rfind("\n", 0, off) + 1))
 
@@ -88,6 +133,11 @@ def run(ctx: Ctx):
                 import warnings as _w
                 data = text.encode(enc)
                 assert data.decode(enc) == text
+                if enc in ("utf-8", "utf-16-le") and r.random() < 0.35 and not text.startswith("\x00"):     # FF FE 00 00 is the UTF-32 mark
+                    # a byte order mark in front of bytes whose encoding the caller names: it is removed before parsing, so the parsed
+                    # text - and every position in it - is the document without it
+                    data = {"utf-8": b"\xef\xbb\xbf", "utf-16-le": b"\xff\xfe"}[enc] + data
+                    ctx.count("bytes-input:bom+from_encoding")
                 with _w.catch_warnings():
                     _w.simplefilter("ignore")
                     soup = BeautifulSoup(data, "html.parser", from_encoding=enc, multi_valued_attributes=None,
@@ -163,6 +213,7 @@ def run(ctx: Ctx):
             ctx.corr_disagreements += 1
             ctx.violation("Lean lineCol and the implementation's positions disagree", case=c, observed=a, model=b, stream="linecol",
                           no_failing_input=True)
+    malformed_positions(ctx)
     # tokenizer-model: on every generated document the Lean tokenizer (Model/Tokenizer.lean, the subject of
     # start_tag_positions_are_offsets_tokenized) must produce html.parser's callback stream, positions included, and the offsets
     # the theorem speaks of (startOffsets = starts of the model's ST/SE spans) must be the offsets the writer put the tags at
